@@ -355,7 +355,7 @@ func TestC05(t *testing.T) {
 	h.Run(t, h.Prop[C05Case]{
 		ID:              "C05",
 		WholeCheckLimit: 300 * time.Second,
-		Rule:            "cases = a geometry model (7 types x 4 coordinate types, empties at every level, nesting to depth 4, Go zero values incl. geom.Geometry{}; all ordinates from finite float64 classes: subnormals, +-0, 1e308, 17-digit values, powers of ten/two neighbours) x AppendWKT prefix x a token-level re-spelling (keyword case bitmap, separators from {'',' ','  ',tab,newline,CRLF}, bare MultiPoint members, exponent-form numerals) x a trailing token; oracles = independent OGC-grammar WKT parser/printer + structural bit-wise model comparison + shortest-decimal test via one-digit-shorter candidates + independent WKB writer; non-trivial = an EMPTY at depth >= 1, or a Z/M tag, or a numeral with >= 16 significant digits or >= 300 characters",
+		Rule:            "cases = a geometry model (7 types x 4 coordinate types, empties at every level, nesting to depth 4, Go zero values incl. geom.Geometry{}; all ordinates from finite float64 classes: subnormals, +-0, 1e308, 17-digit values, powers of ten/two neighbours) x AppendWKT prefix x a token-level re-spelling (keyword case bitmap, separators from {'',' ','  ',tab,newline,CRLF}, bare MultiPoint members, exponent-form numerals) x a trailing token; 1 in 4 with closing positions equal to the first only numerically (0 vs -0), 1 in 8 with empty rings inside non-empty polygons; oracles = independent OGC-grammar WKT parser/printer + structural bit-wise model comparison + shortest-decimal test via one-digit-shorter candidates + independent WKB writer; non-trivial = an EMPTY at depth >= 1, or a Z/M tag, or a numeral with >= 16 significant digits or >= 300 characters",
 		Assumptions:     []string{"independent WKT grammar (internal/codec/wkt.go) matches OGC 06-103r4 + the documented extensions", "strconv.ParseFloat is correctly rounded"},
 		Gen:             c05Gen,
 		Check:           c05Check,
